@@ -75,6 +75,14 @@ if __name__ == "__main__":
     mk("c12-cos-discard-before-add", R + "cancel_on_shutdown.py", "                self._futures.add(future)\n                future.add_done_callback(self._futures.discard)", "                future.add_done_callback(self._futures.discard)\n                self._futures.add(future)")
     mk("c12-timeout-keeps-done-jobs", R + "timeout.py", "            if job.future.done():\n                self._log.debug(\"Discarding job for completed future: %s\", job)\n            elif", "            if job.future.done():\n                pending.append(job)\n            elif")
     mk("c12-poll-future-keeps-executor", R + "poll.py", "        future._executor._deregister_poll(future)\n        future._executor = None", "        future._executor._deregister_poll(future)")
+    # C18
+    mk("c18-policy-no-try", R + "retry.py", "        return (should_retry, sleep_time)\n    except Exception:\n        logger.exception(\"Exception while evaluating retry policy %r\", policy)\n        return (False, None)", "        return (should_retry, sleep_time)\n    except ZeroDivisionError:\n        logger.exception(\"Exception while evaluating retry policy %r\", policy)\n        return (False, None)")
+    mk("c18-eval-throttle-reraises", R + "throttle.py", "            self._log.exception(\n                \"Error evaluating throttle count via %r\", self._throttle\n            )\n", "            self._log.exception(\n                \"Error evaluating throttle count via %r\", self._throttle\n            )\n            raise\n")
+    mk("c18-invoke-callbacks-no-except", R + "common.py", "            try:\n                callback(self)\n            except Exception:\n                LOG.exception(\"exception calling callback for %r\", self)", "            callback(self)")
+    mk("c18-retry-copy-future-strict", R + "retry.py", "        try_set_result(f2, result)\n", "        f2.set_result(result)\n")
+    mk("c18-cancel-orphan-assert", R + "retry.py", "        if not found_job:\n", "        assert found_job, \"Cancel called on orphan %s\" % future\n        if not found_job:\n")
+    mk("c18-poll-cancel-fn-no-try", R + "poll.py", "        try:\n            return self._cancel_fn(descriptor.result)\n        except Exception:", "        try:\n            return self._cancel_fn(descriptor.result)\n        except ZeroDivisionError:")
+    mk("c18-poll-fn-error-not-caught", R + "poll.py", "        except Exception as e:\n            self._log.debug(\"Poll function failed\", exc_info=True)", "        except ZeroDivisionError as e:\n            self._log.debug(\"Poll function failed\", exc_info=True)")
     # C07
     mk("c07-throttle-ge-to-gt", R + "throttle.py", "(executor._running_count.value >= throttle)", "(executor._running_count.value > throttle)")
     mk("c07-incr-after-submit", R + "throttle.py", "            executor._running_count.incr()\n            metrics.THROTTLE_QUEUE", "            metrics.THROTTLE_QUEUE")
